@@ -22,6 +22,10 @@ CHECKS = {
    "explicit-state BFS by history replay over the real VariableSet in lock-step with a stack-of-maps reference model (every return value and read compared after every operation), plus scripts through the whole shell",
    "Every history up to depth 5 (quick) / 7 (thorough) over {push regular/volatile context, pop, get_or_new in Global/Local/Volatile scope followed by touch/assign/export/make read-only, unset in each scope} on names {x,y} with up to 3 contexts above the base is replayed on a fresh real VariableSet (contexts pushed and popped through the public RAII guards) in lock-step with a naive stack-of-maps model that encodes the documented semantics (volatile-to-regular migration, hiding, read-only); after every operation get, get_scoped x3, iter x3, env_c_strings and positional_params are compared. About 55 scripts run through the whole shell cover prefix assignments to each command kind, locals, read-only and the environment received by executed programs. The property is equivalence with a simple scoping model over all histories, which lock-step exploration decides directly.",
    "Names {x,y}, <=3 extra contexts, Scope::Volatile only when the topmost context is volatile (documented precondition). States merged on (model state, canonicalised Debug rendering of the implementation)."),
+ "C09": ("fault_enumeration", "DESIGN.md §3 C09",
+   "bounded-exhaustive enumeration of redirection lists x command kinds x noclobber on the real shell over the simulated OS, repeated under every descriptor limit 5..14 (fault enumeration of each descriptor allocation), oracle = POSIX descriptor-table model + before/after table equality",
+   "Every redirection list of length <= 2 (thorough: larger target-fd alphabet and a length-3 slice) over {< > >> >| <> <& >& <<} x target fd {default,3,5(closed),...} x operand {existing, missing, other file, open/closed/internal fd, -, non-numeric} on 11 command kinds (regular built-in, special built-in eval / :, function, brace group, subshell, external, not found, empty command, exec, command exec), with noclobber where relevant, is run through the whole shell. A descriptor-table model predicts the table the command must see (description identity, access mode, inode identity), the files created/truncated, whether the command runs, and what happens after an error; the real table (all descriptors, read from the simulator's process state) must be identical before and after every non-exec command, at EXIT, every descriptor >= 10 must be close-on-exec. Fault enumeration: the same lists under `ulimit -n N` for every N in 5..14, so each internal allocation fails at some N; then only the invariants are judged.",
+   "Offsets are not compared; directories/missing parents as write targets are left to C19; under descriptor limits only restoration/close-on-exec invariants and the inside-table (when the command ran) are judged."),
 }
 
 NOT_YET = {
